@@ -111,6 +111,18 @@ def nestedCase (fields : List String) : String :=
   let inner := ins.map fun ns => s!"in{ns.S}=" ++ finalStr ns.ni (Sched.nestedInnerFinal co okf n ins ns)
   s!"final={finalStr n σ}|err={if σ.gerr then 1 else 0}|" ++ "|".intercalate inner
 
+/-- `cockpit a1 r1 r7 a2 f r2`: starts (`a`), finishes (`r`) and frames (`f`) of numbered tasks, then the
+cockpit is closed: the "Finished" lines printed, in order -/
+def cockpitCase (fields : List String) : String :=
+  let acts : List Out.CPAct := fields.filterMap fun f =>
+    if f = "f" then some .frame
+    else match f.toList with
+      | 'a' :: r => (String.ofList r).toNat?.map .add
+      | 'r' :: r => (String.ofList r).toNat?.map .remove
+      | _ => none
+  let σ := Out.cpRun Out.cpInit (acts ++ [.close])
+  "finished=" ++ ",".intercalate (σ.printed.map toString)
+
 /-! ### runner cases -/
 
 def parseRes (s : String) : Runner.CmdResult :=
@@ -443,6 +455,7 @@ def handle (line0 : String) : String :=
   | "envfile" :: rest => envfileCase rest
   | "impshape" :: rest => impshapeCase rest
   | "prefixed" :: rest => prefixedCase rest
+  | "cockpit" :: rest => cockpitCase rest
   | "native" :: _ => nativeCase
   | "glob" :: rest => globCase rest
   | "select" :: rest => selectCase rest
